@@ -14,7 +14,7 @@ use vbase::{ensure, fail};
 use crate::family::{self, Fam, FamVisitor, G};
 use crate::model_ser::{cmp_output, to_model, SV};
 
-pub const RULE: &str = "cases are Rust values: (a) generated values of the 71-type family (incl. field/variant names that need escaping, nullable newtype payloads, strings written piecewise through collect_str with empty pieces) (integers of all widths, floats, strings, options, tuples, sequences, maps with string/integer/bool/char/enum keys, structs, all enum shapes, flatten, bytes, recursive trees) plus non-finite floats and invalid key kinds; (b) strings of every length 0..=200 with each escapable byte (quote, backslash, C0 controls, DEL, multi-byte) at every position 0..=130, materialised at every start offset 0..=64 of a heap buffer, ending exactly at a PROT_NONE guard page, and starting right after one; (c) random Unicode strings up to 70,000 bytes. Each value is written through to_string, to_vec, to_writer over Vec, BytesMut writers, BufferedWriter, io::BufWriter, &mut W and Box<W>, compact and pretty; the output must be UTF-8, accepted by the reference recogniser, its reference parse equal to the value's model (independent model serializer; string tokens checked for the escaping discipline; numbers by value), pretty == reindent(compact) byte for byte, all writers byte-identical. Fault enumeration: a writer that fails once n bytes were accepted, for sampled/all n in 0..len, direct and as inner writer of BufferedWriter / io::BufWriter, plus writers that accept at most k bytes per call: the call must return Err (never Ok, never panic) and the accepted bytes must be a prefix of the correct output. Non-trivial = value containing a string that needs an escape or is >= 32 bytes, or nesting >= 2; distinct by case encoding.";
+pub const RULE: &str = "cases are Rust values: (a) generated values of the 71-type family (incl. field/variant names that need escaping, nullable newtype payloads, strings written piecewise through collect_str with empty pieces) (integers of all widths, floats, strings, options, tuples, sequences, maps with string/integer/bool/char/enum keys, structs, all enum shapes, flatten, bytes, recursive trees) plus non-finite floats and invalid key kinds; (a2) DOM values in every representation the public API produces (the final heaps of C15 operation histories: arena-backed, shared, promoted, macro-/conversion-built, owned raw numbers), whose output must denote what the public read API reports, member for member in iteration order; (b) strings of every length 0..=200 with each escapable byte (quote, backslash, C0 controls, DEL, multi-byte) at every position 0..=130, materialised at every start offset 0..=64 of a heap buffer, ending exactly at a PROT_NONE guard page, and starting right after one; (c) random Unicode strings up to 70,000 bytes. Each value is written through to_string, to_vec, to_writer over Vec, BytesMut writers, BufferedWriter, io::BufWriter, &mut W and Box<W>, compact and pretty; the output must be UTF-8, accepted by the reference recogniser, its reference parse equal to the value's model (independent model serializer; string tokens checked for the escaping discipline; numbers by value), pretty == reindent(compact) byte for byte, all writers byte-identical. Fault enumeration: a writer that fails once n bytes were accepted, for sampled/all n in 0..len, direct and as inner writer of BufferedWriter / io::BufWriter, plus writers that accept at most k bytes per call: the call must return Err (never Ok, never panic) and the accepted bytes must be a prefix of the correct output. Non-trivial = value containing a string that needs an escape or is >= 32 bytes, or nesting >= 2; distinct by case encoding.";
 pub const ASSUMPTIONS: &[&str] = &["serde's JSON data-model convention (as documented by serde_json) defines the value's model", "refjson parser and escaping rule", "Rust std float/integer parsing"];
 
 // ---- writers ------------------------------------------------------------------------------
@@ -326,6 +326,37 @@ pub fn oracle_special(case: &[u8], obs: &mut Obs) -> Result<(), Fail> {
     }
 }
 
+/// DOM values in every representation (case = a C15 operation history): whatever the public API has
+/// made of a value — arena-backed, shared with clones, promoted to owned containers, built by macros
+/// and conversions, holding owned raw numbers — its serialization must be well-formed and denote what
+/// the public read API reports for it, member for member and in iteration order.
+pub fn oracle_dom(case: &[u8], obs: &mut Obs) -> Result<(), Fail> {
+    let mut inner = Obs::default();
+    let Ok((slots, _models, log)) = super::c15::run_history(case, &mut inner) else {
+        return Ok(()); // a model mismatch is C15's finding, not C05's
+    };
+    for (i, v) in slots.iter().enumerate() {
+        let want = crate::sx::walk(v, false);
+        let want = if cfg!(feature = "sort_keys") { want.sorted() } else { want };
+        let compact = sonic_rs::to_string(v).map_err(|e| Fail::new("C05/dom/ser-error", format!("after [{log}] to_string(slot {i}) failed: {e}")))?;
+        let (node, _) = refjson::parse(compact.as_bytes()).map_err(|e| Fail::new("C05/dom/malformed-output", format!("after [{log}] slot {i} serializes to {:?}: {}", trunc(&compact, 300), e.reason)))?;
+        let got = node.model(compact.as_bytes(), false);
+        ensure!(got == want, "C05/dom/wrong-output", "after [{log}] slot {i} serializes to {:?}, but the read API reports {}", trunc(&compact, 300), trunc(&want.dump(), 300));
+        ensure!(refjson::compact(compact.as_bytes()) == compact.as_bytes(), "C05/dom/whitespace", "compact output of slot {i} has whitespace: {:?}", trunc(&compact, 200));
+        let pretty = sonic_rs::to_string_pretty(v).map_err(|e| Fail::new("C05/dom/ser-error", format!("{e}")))?;
+        ensure!(pretty.as_bytes() == refjson::reindent(compact.as_bytes()), "C05/dom/pretty", "after [{log}] pretty output of slot {i} is not the re-indented compact output: {:?}", trunc(&pretty, 300));
+        ensure!(sonic_rs::to_vec(v).ok().as_deref() == Some(compact.as_bytes()) && format!("{v}") == compact, "C05/dom/writers-differ", "after [{log}] to_vec / Display of slot {i} differ from to_string");
+        let mut sink = Vec::new();
+        sonic_rs::to_writer(std::io::BufWriter::with_capacity(7, &mut sink), v).map_err(|e| Fail::new("C05/dom/ser-error", format!("{e}")))?;
+        ensure!(sink == compact.as_bytes(), "C05/dom/writers-differ", "after [{log}] to_writer(io::BufWriter) of slot {i} gives {:?}", show_bytes(&sink, 200));
+        if matches!(want, refjson::M::Arr(_) | refjson::M::Obj(_)) {
+            obs.nt_key(&format!("slot{i}"));
+        }
+    }
+    obs.render = Some(log);
+    Ok(())
+}
+
 /// strings: case = [placement][offset][bytes...]
 pub fn oracle_string(case: &[u8], obs: &mut Obs) -> Result<(), Fail> {
     if case.len() < 2 {
@@ -397,6 +428,7 @@ pub fn subs() -> Vec<Sub<'static>> {
         Sub { name: "family", oracle: &oracle_family, minimise_bytes: false },
         Sub { name: "special", oracle: &oracle_special, minimise_bytes: false },
         Sub { name: "strings", oracle: &oracle_string, minimise_bytes: false },
+        Sub { name: "dom", oracle: &oracle_dom, minimise_bytes: false },
     ]
 }
 
@@ -405,6 +437,7 @@ fn sub(name: &str) -> Sub<'static> {
 }
 
 pub fn run(ctx: &Ctx) {
+    ctx.search(&sub("dom"), "dom-histories", ctx.n(400_000, 4_000_000), 260, &|src: &mut Src| src.rest().to_vec());
     let quick = ctx.quick();
     let s = sub("special");
     ctx.cases(&s, &(0u8..12).map(|k| vec![k]).collect::<Vec<_>>());
